@@ -89,7 +89,8 @@ ShapeOps == [reshape   |-> [args |-> {"flat", "minus1", "tuple32"}, sp |-> {"mg"
              swapaxes  |-> [args |-> {"a02", "am1_0"}, sp |-> {"mg", "np", "method"}],
              moveaxis  |-> [args |-> {"m02", "m20", "multi"}, sp |-> {"mg", "np", "method"}],
              squeeze   |-> [args |-> {"none", "axis"}, sp |-> {"mg", "np", "method"}],
-             ravel     |-> [args |-> {"none"}, sp |-> {"mg", "np", "method"}],
+             \* flattening in C order, however it is spelled - also of a transposed (Fortran-contiguous) operand
+             ravel     |-> [args |-> {"none", "ofT"}, sp |-> {"mg", "np", "method", "flatten", "reshape_m1", "np_reshape_m1"}],
              clip      |-> [args |-> {"both", "lo", "hi"}, sp |-> {"mg", "np", "method"}],
              expand_dims |-> [args |-> {"ax0", "axm1"}, sp |-> {"mg", "np"}],
              broadcast_to |-> [args |-> {"lead2"}, sp |-> {"mg", "np"}],
